@@ -4,6 +4,7 @@ import EduceModel.Props.C02
 import EduceModel.Props.C03
 import EduceModel.Props.C04
 import EduceModel.Props.C05
+import EduceModel.Props.C06
 import EduceModel.Props.C07
 import EduceModel.Props.C09
 import EduceModel.Props.C11
@@ -1192,6 +1193,519 @@ theorem deref_struct_end_to_end (c : Ctx) (m : TraitMeta) (me : TraitId) (items 
       simp [Spec.deref, Sem.variantsOfDeref, h0, hdes]
     refine ⟨?_, hsp⟩
     rw [e1, hsp, h0]
+
+theorem deref_arms_ok : ∀ (vs : List DerefVariant) (k0 : Nat),
+    (∀ (k : Nat) (v : DerefVariant), vs[k]? = some v → ∃ a, Gen.Deref.arm (k0 + k) v = .ok a) →
+    ∃ as, Gen.Deref.arms k0 vs = .ok as := by
+  intro vs
+  induction vs with
+  | nil => intro k0 _; exact ⟨[], rfl⟩
+  | cons v vs ih =>
+    intro k0 h
+    obtain ⟨a, ha⟩ := h 0 v (by simp)
+    obtain ⟨as, has⟩ := ih (k0 + 1) (fun k w hk => by
+      obtain ⟨a', ha'⟩ := h (k + 1) w (by simpa using hk)
+      exact ⟨a', by rw [show k0 + 1 + k = k0 + (k + 1) by omega]; exact ha'⟩)
+    simp only [Nat.add_zero] at ha
+    exact ⟨a :: as, by simp [Gen.Deref.arms, ha, has]⟩
+
+/-- **C09 end to end, enums.** The Deref (or DerefMut) handler accepted an enum. Then no variant is a unit variant, every
+    variant's markers were read from its fields' own attributes, the index the item reports for variant `k` is the designated
+    field of the reference semantics on those markers, the body exists, and for every value `&*x` / `&mut *x` designates
+    exactly that field of the value's current variant. -/
+theorem deref_enum_end_to_end (c : Ctx) (m : TraitMeta) (me : TraitId) (items : List Item) (hwf : InputWF c.d)
+    (hk : c.d.kind = .enum) (h : derefHandler c m me = .ok items) :
+    ∃ (vs : List (Variant × Nat × Field)), vs.map Prod.fst = c.d.variants ∧
+      (∃ it ∈ items, it.trait = me.name ∧ it.variants = vs.map fun (v, i, _) => (v.name, v.shape, [toString i], [])) ∧
+      (∀ (k : Nat) (v : Variant) (i : Nat) (f : Field), vs[k]? = some (v, i, f) →
+          v.shape ≠ .unit ∧ v.fields[i]? = some f ∧ (∀ x ∈ v.fields, ∃ b, derefFieldFlag c me x = .ok b) ∧
+          Spec.designated (derefVariant (derefFieldFlag c me) v).fields = some i) ∧
+      ∃ bd, Gen.Deref.body (derefType (derefFieldFlag c me) c.d) = .ok bd ∧
+        ∀ {V : Type} (a : Val V), (derefType (derefFieldFlag c me) c.d).Inhabits a →
+          ∃ v i f, vs[a.variant]? = some (v, i, f) ∧
+            Sem.evalDeref (derefType (derefFieldFlag c me) c.d) bd a = some ⟨a.variant, i⟩ := by
+  unfold derefHandler at h
+  simp only [hk] at h
+  obtain ⟨_, _, h⟩ := bind_ok_inv h
+  obtain ⟨vs, hvs, h⟩ := bind_ok_inv h
+  have h2 := mapRes_ok_forall _ _ _ hvs
+  -- what one accepted variant tells
+  have key : ∀ (x : Variant) (y : Variant × Nat × Field),
+      ((do
+        let _ ← fromAttrs c.F c.traits (· == me) (flagTypeFromMeta false) false x.attrs
+        if x.shape == .unit then Res.diag .unitVariant
+        else do
+          let (i, f) ← derefPick (fun f => fromAttrs c.F c.traits (· == me) (flagTypeFromMeta true) false f.attrs) x.fields
+          pure (x, i, f)) : Res (Variant × Nat × Field)) = .ok y →
+      y.1 = x ∧ x.shape ≠ .unit ∧ derefPick (derefFieldFlag c me) x.fields = .ok (y.2.1, y.2.2) := by
+    intro x y hxy
+    obtain ⟨_, _, hxy⟩ := bind_ok_inv hxy
+    split at hxy
+    · cases hxy
+    · rename_i hnu
+      obtain ⟨q, hq, hp⟩ := bind_ok_inv hxy
+      obtain ⟨i, f⟩ := q
+      cases hp
+      refine ⟨rfl, ?_, hq⟩
+      intro hs; rw [hs] at hnu; exact hnu rfl
+  have hmap : vs.map Prod.fst = c.d.variants := forall2_map_eq Prod.fst (fun x y hxy => (key x y hxy).1) _ _ h2
+  have hper : ∀ (k : Nat) (v : Variant) (i : Nat) (f : Field), vs[k]? = some (v, i, f) →
+      c.d.variants[k]? = some v ∧ v.shape ≠ .unit ∧ derefPick (derefFieldFlag c me) v.fields = .ok (i, f) := by
+    intro k v i f hkv
+    obtain ⟨x, hx, hxy⟩ := forall2_getElem h2 k (v, i, f) hkv
+    obtain ⟨e1, e2, e3⟩ := key x (v, i, f) hxy
+    simp only at e1 e3
+    subst e1
+    exact ⟨hx, e2, e3⟩
+  have hty : derefType (derefFieldFlag c me) c.d = .enum (c.d.variants.map (derefVariant (derefFieldFlag c me))) := by
+    simp [derefType, hk]
+  have hfacts : ∀ (k : Nat) (v : Variant) (i : Nat) (f : Field), vs[k]? = some (v, i, f) →
+      v.shape ≠ .unit ∧ v.fields[i]? = some f ∧ (∀ x ∈ v.fields, ∃ b, derefFieldFlag c me x = .ok b) ∧
+      Spec.designated (derefVariant (derefFieldFlag c me) v).fields = some i := by
+    intro k v i f hkv
+    obtain ⟨_, hnu, hp⟩ := hper k v i f hkv
+    obtain ⟨h1, hpick, h3⟩ := derefPick_pick (derefFieldFlag c me) v.fields i f (.noFieldOfVariant k) (.multipleFieldsOfVariant k) hp
+    exact ⟨hnu, h3, h1, (pick_eq_designated _ _ _ i).mp (by simpa [derefVariant] using hpick)⟩
+  -- every arm exists
+  have harms : ∀ (k : Nat) (w : DerefVariant), (c.d.variants.map (derefVariant (derefFieldFlag c me)))[k]? = some w →
+      ∃ a, Gen.Deref.arm (0 + k) w = .ok a := by
+    intro k w hw
+    simp only [List.getElem?_map] at hw
+    cases hv : c.d.variants[k]? with
+    | none => simp [hv] at hw
+    | some v =>
+      simp only [hv, Option.map_some, Option.some.injEq] at hw
+      subst hw
+      have : ∃ q, vs[k]? = some q := by
+        have hl : k < vs.length := by
+          have := congrArg List.length hmap
+          simp at this
+          rw [this]; exact (List.getElem?_eq_some_iff.mp hv).1
+        exact ⟨vs[k], List.getElem?_eq_getElem hl⟩
+      obtain ⟨⟨v', i, f⟩, hq⟩ := this
+      have hv' : v' = v := by
+        have := (hper k v' i f hq).1
+        rw [hv] at this; cases this; rfl
+      subst hv'
+      obtain ⟨hnu, _, _, hdes⟩ := hfacts k v' i f hq
+      cases harm : Gen.Deref.arm (0 + k) (derefVariant (derefFieldFlag c me) v') with
+      | ok a => exact ⟨a, rfl⟩
+      | error e =>
+        rcases (variant_refused_iff (0 + k) _).mp ⟨e, harm⟩ with hu | hn
+        · exact absurd (by simpa [derefVariant] using hu) hnu
+        · rw [hdes] at hn; cases hn
+  obtain ⟨as, has⟩ := deref_arms_ok _ 0 harms
+  cases vs with
+  | nil => cases h
+  | cons p ps =>
+    obtain ⟨v0, i0, f0⟩ := p
+    simp only [pure] at h
+    cases h
+    refine ⟨(v0, i0, f0) :: ps, hmap, ⟨_, List.mem_singleton.mpr rfl, rfl, rfl⟩, hfacts, ?_⟩
+    have hne : as ≠ [] := by
+      intro he
+      have := (deref_arms_get _ 0 as has).1
+      rw [he, ← hmap] at this
+      simp at this
+    have hbody : Gen.Deref.body (.enum (c.d.variants.map (derefVariant (derefFieldFlag c me)))) = .ok (.enum as) := by
+      cases as with
+      | nil => exact absurd rfl hne
+      | cons a as' => simp only [Gen.Deref.body, has]
+    rw [hty]
+    refine ⟨_, hbody, ?_⟩
+    intro V a ha
+    have hw := derefType_WF (derefFieldFlag c me) c.d hwf
+    rw [hty] at hw
+    obtain ⟨e1, e2⟩ := deref_correct _ hw _ hbody a ha
+    obtain ⟨w, hw1, _⟩ := ha
+    simp only [Sem.variantsOfDeref, List.getElem?_map] at hw1
+    cases hv : c.d.variants[a.variant]? with
+    | none => simp [hv] at hw1
+    | some v =>
+      have hl : a.variant < ((v0, i0, f0) :: ps).length := by
+        have := congrArg List.length hmap
+        simp only [List.length_map] at this
+        rw [this]; exact (List.getElem?_eq_some_iff.mp hv).1
+      have hq'' := List.getElem?_eq_getElem hl
+      generalize ((v0, i0, f0) :: ps)[a.variant] = q at hq''
+      obtain ⟨v', i, f⟩ := q
+      have hq' : ((v0, i0, f0) :: ps)[a.variant]? = some (v', i, f) := hq''
+      have hv' : v' = v := by
+        have := (hper a.variant v' i f hq').1
+        rw [hv] at this; cases this; rfl
+      subst hv'
+      obtain ⟨_, _, _, hdes⟩ := hfacts a.variant v' i f hq'
+      refine ⟨v', i, f, hq', ?_⟩
+      rw [e1]
+      simp [Spec.deref, Sem.variantsOfDeref, hv, hdes]
+
+/-! ## C06 — Debug, end to end -/
+
+theorem structEntries_isEmpty (num : String → Nat) (isT : Bool) : ∀ (fas : List (Field × DebugFieldAttr)) (i : Nat),
+    (Gen.Debug.structEntries isT i (fas.map (dbgField num))).isEmpty = (fas.filter fun (_, a) => !a.ignore).isEmpty := by
+  intro fas
+  induction fas with
+  | nil => intro i; rfl
+  | cons fa rest ih =>
+    intro i
+    obtain ⟨f, a⟩ := fa
+    simp only [List.map_cons, Gen.Debug.structEntries, dbgField, List.filter_cons]
+    cases a.ignore with
+    | true => simpa [dbgField] using ih (i + 1)
+    | false => simp
+
+theorem nameCfg_isNone (n : NameCfg) (own : Ident) : (n.toIdent own).isNone = (n == .disable) := by
+  cases n <;> rfl
+
+theorem dbgVariantFields_WF (num : String → Nat) (v : Variant) (fas : List (Field × DebugFieldAttr)) (hv : VariantWF v)
+    (hf : fas.map Prod.fst = v.fields) (w : DbgVariant) (hs : w.shape = v.shape) (hfs : w.fields = fas.map (dbgField num)) : w.WF := by
+  obtain ⟨h1, h2⟩ := hv
+  constructor
+  · intro hsn
+    have : w.fields.map DbgField.name = (v.fields.map fname).map identOf := by
+      simp [hfs, dbgField, ← hf, List.map_map, Function.comp_def]
+    rw [this]
+    exact nodup_map_identOf _ (h1 (hs ▸ hsn))
+  · intro hsu
+    have : fas = [] := by
+      have := h2 (hs ▸ hsu)
+      rw [this] at hf
+      simpa using hf
+    simp [hfs, this]
+
+/-- **C06 end to end, structs.** The Debug handler accepted a struct: the type-level attribute gave `ta` (effective name,
+    `named_field`), every field's attribute was read with the `name` switch that `named_field` dictates, the item carries
+    exactly that, the `fmt` body exists, and for every leaf behaviour, value and formatter mode (`{:?}` / `{:#?}`) the
+    output is what core::fmt's builders render for the effective shape. -/
+theorem debug_struct_end_to_end (c : Ctx) (m : TraitMeta) (items : List Item) (hwf : InputWF c.d)
+    (hk : c.d.kind = .struct) (h : debugHandler c m = .ok items) :
+    ∃ v ta fas, c.d.variants = [v] ∧ debugTypeFromMeta (dbgStructFlags v) m = .ok ta ∧ dbgFieldScan c ta.namedField v.fields = .ok fas ∧
+      (∃ it ∈ items, it.trait = "Debug" ∧ it.head = [showName ta.name, showBool ta.namedField] ∧
+        it.variants = [(v.name, v.shape, [], fas.map fun (f, a) => [fname f, showBool a.ignore, showOpt a.method, showOpt a.name])]) ∧
+      ∀ (num : String → Nat), ∃ bd, Gen.Debug.body (dbgStructType num c.d v ta fas) = .ok bd ∧
+        ∀ {V : Type} (ops : DbgOps V) (a : Val V) (alt : Bool), (dbgStructType num c.d v ta fas).Inhabits a →
+          Sem.evalFmt ops (dbgStructType num c.d v ta fas) bd a alt
+            = (Spec.effectiveShape (dbgStructType num c.d v ta fas) a).map fun s => s.render ops alt := by
+  obtain ⟨v, hv⟩ := hwf.2 (by simp [hk])
+  unfold debugHandler at h
+  simp only [hk, hv, List.headD_cons] at h
+  obtain ⟨ta, hta, h⟩ := bind_ok_inv h
+  obtain ⟨fas, hfas, h⟩ := bind_ok_inv h
+  split at h
+  · cases h
+  · rename_i hshown
+    simp only [pure] at h
+    cases h
+    refine ⟨v, ta, fas, hv, hta, hfas, ⟨_, List.mem_singleton.mpr rfl, rfl, rfl, rfl⟩, ?_⟩
+    intro num
+    have hfst := (fieldScan_spec _ _ _ hfas).1
+    have hbody : ∃ bd, Gen.Debug.body (dbgStructType num c.d v ta fas) = .ok bd := by
+      simp only [dbgStructType, Gen.Debug.body, Gen.Debug.structBody]
+      split
+      · rename_i hbad
+        exfalso
+        apply hshown
+        simp only [Bool.and_eq_true] at hbad ⊢
+        obtain ⟨b1, b2⟩ := hbad
+        rw [structEntries_isEmpty] at b1
+        rw [nameCfg_isNone] at b2
+        exact ⟨b1, b2⟩
+      · exact ⟨_, rfl⟩
+    obtain ⟨bd, hbd⟩ := hbody
+    refine ⟨bd, hbd, ?_⟩
+    intro V ops a alt ha
+    have hw : (dbgStructType num c.d v ta fas).WF := by
+      simp only [dbgStructType, DbgType.WF]
+      exact dbgVariantFields_WF num v fas (hwf.1 v (by simp [hv])) hfst _ rfl rfl
+    exact debug_output ops _ hw bd hbd a ha alt
+
+theorem armEntries_isEmpty (num : String → Nat) (bs : Nat → DbgField → Option Ident) (own : Nat → DbgField → Ident)
+    (hbs : ∀ i c, (bs i c).isNone = c.ignore) : ∀ (fas : List (Field × DebugFieldAttr)) (i : Nat),
+    (Gen.Debug.armEntries bs own i (fas.map (dbgField num))).isEmpty = fas.all fun (_, a) => a.ignore := by
+  intro fas
+  induction fas with
+  | nil => intro i; rfl
+  | cons fa rest ih =>
+    intro i
+    obtain ⟨f, a⟩ := fa
+    simp only [List.map_cons, Gen.Debug.armEntries, List.all_cons]
+    have hb := hbs i (dbgField num (f, a))
+    have hig : (dbgField num (f, a)).ignore = a.ignore := rfl
+    rw [hig] at hb
+    cases hx : bs i (dbgField num (f, a)) with
+    | none =>
+      rw [hx] at hb
+      simp only [Option.isNone_none] at hb
+      simp only [← hb, Bool.true_and]
+      exact ih (i + 1)
+    | some x =>
+      rw [hx] at hb
+      simp only [Option.isNone_some] at hb
+      simp [← hb]
+
+theorem nameString_isNone (t v : Option Ident) : (Gen.Debug.nameString t v).isNone = (t.isNone && v.isNone) := by
+  cases t <;> cases v <;> rfl
+
+theorem dbg_arms_ok (tname : Option Ident) : ∀ (vs : List DbgVariant),
+    (∀ v ∈ vs, ∃ a, Gen.Debug.arm tname v = .ok a) → ∃ as, Gen.Debug.arms tname vs = .ok as ∧ as.length = vs.length := by
+  intro vs
+  induction vs with
+  | nil => intro _; exact ⟨[], rfl, rfl⟩
+  | cons v vs ih =>
+    intro h
+    obtain ⟨a, ha⟩ := h v (by simp)
+    obtain ⟨as, has, hl⟩ := ih (fun w hw => h w (List.mem_cons_of_mem _ hw))
+    exact ⟨a :: as, by simp [Gen.Debug.arms, ha, has], by simp [hl]⟩
+
+/-- **C06 end to end, enums.** The Debug handler accepted an enum: the type-level attribute gave `ta`, every variant's
+    attribute gave its `va` (variant name, `named_field`), every field's attribute was read with the `name` switch the
+    variant's `named_field` dictates; the item carries exactly that; the `fmt` body exists; and for every leaf behaviour,
+    value and formatter mode the output is what core::fmt's builders render for the effective shape (effective name
+    `Enum::Variant` / `Enum` / `Variant` / none, style by `named_field`, non-ignored fields in declaration order under their
+    effective keys, each by its own Debug or the custom method). -/
+theorem debug_enum_end_to_end (c : Ctx) (m : TraitMeta) (items : List Item) (hwf : InputWF c.d)
+    (hk : c.d.kind = .enum) (h : debugHandler c m = .ok items) :
+    ∃ (ta : DebugTypeAttr) (vs : List (Variant × DebugTypeAttr × List (Field × DebugFieldAttr))),
+      debugTypeFromMeta dbgEnumFlags m = .ok ta ∧ vs.map Prod.fst = c.d.variants ∧
+      (∀ (k : Nat) (v : Variant) (va : DebugTypeAttr) (fas : List (Field × DebugFieldAttr)), vs[k]? = some (v, va, fas) →
+          dbgVariantAttr c v = .ok va ∧ (v.shape = .unit → fas = []) ∧ (v.shape ≠ .unit → dbgFieldScan c va.namedField v.fields = .ok fas)) ∧
+      (∃ it ∈ items, it.trait = "Debug" ∧ it.head = [showName ta.name] ∧
+        it.variants = vs.map fun (v, va, fas) => (v.name, v.shape, [showName va.name, showBool va.namedField],
+                fas.map fun (f, a) => [fname f, showBool a.ignore, showOpt a.method, showOpt a.name])) ∧
+      ∀ (num : String → Nat), ∃ bd, Gen.Debug.body (dbgEnumType num c.d ta vs) = .ok bd ∧
+        ∀ {V : Type} (ops : DbgOps V) (a : Val V) (alt : Bool), (dbgEnumType num c.d ta vs).Inhabits a →
+          Sem.evalFmt ops (dbgEnumType num c.d ta vs) bd a alt
+            = (Spec.effectiveShape (dbgEnumType num c.d ta vs) a).map fun s => s.render ops alt := by
+  unfold debugHandler at h
+  simp only [hk] at h
+  obtain ⟨ta, hta, h⟩ := bind_ok_inv h
+  obtain ⟨vs, hvs, h⟩ := bind_ok_inv h
+  have h2 := mapRes_ok_forall _ _ _ hvs
+  have key : ∀ (x : Variant) (y : Variant × DebugTypeAttr × List (Field × DebugFieldAttr)),
+      ((do
+        let va ← fromAttrs c.F c.traits (· == .debug)
+          (debugTypeFromMeta { flag := false, unsafe_ := false, name := true, namedField := true, bound := false,
+                               nameDefault := .default, namedFieldDefault := x.shape == .named })
+          { name := .default, namedField := x.shape == .named } x.attrs
+        let hasName := ta.name != .disable || va.name != .disable
+        match x.shape with
+        | .unit =>
+          if !hasName then Res.diag .unitVariantNeedName else pure (x, va, ([] : List (Field × DebugFieldAttr)))
+        | _ =>
+          let fas ← mapRes (fun f => do
+              let a ← fromAttrs c.F c.traits (· == .debug) (debugFieldFromMeta { name := va.namedField, ignore := true, method := true }) {} f.attrs
+              pure (f, a)) x.fields
+          if (fas.all fun (_, a) => a.ignore) && !hasName then Res.diag .unitStructNeedName else pure (x, va, fas))
+        : Res (Variant × DebugTypeAttr × List (Field × DebugFieldAttr))) = .ok y →
+      y.1 = x ∧ dbgVariantAttr c x = .ok y.2.1 ∧
+      (x.shape = .unit → y.2.2 = [] ∧ (ta.name != .disable || y.2.1.name != .disable) = true) ∧
+      (x.shape ≠ .unit → dbgFieldScan c y.2.1.namedField x.fields = .ok y.2.2 ∧
+          ((y.2.2.all fun (_, a) => a.ignore) && !(ta.name != .disable || y.2.1.name != .disable)) = false) := by
+    intro x y hxy
+    obtain ⟨va, hva, hxy⟩ := bind_ok_inv hxy
+    dsimp only at hxy
+    cases hs : x.shape with
+    | unit =>
+      simp only [hs] at hxy
+      split at hxy
+      · cases hxy
+      · rename_i hn
+        cases hxy
+        refine ⟨rfl, hva, fun _ => ⟨rfl, ?_⟩, fun hne => absurd rfl hne⟩
+        cases hb : (ta.name != NameCfg.disable || va.name != NameCfg.disable) with
+        | true => rfl
+        | false => rw [hb] at hn; exact absurd rfl hn
+    | tuple =>
+      simp only [hs] at hxy
+      obtain ⟨fas, hfas, hxy⟩ := bind_ok_inv hxy
+      split at hxy
+      · cases hxy
+      · rename_i hn
+        cases hxy
+        refine ⟨rfl, hva, ?_, ?_⟩
+        · intro hu; cases hu
+        · intro _
+          refine ⟨hfas, ?_⟩
+          cases hb : ((fas.all fun (_, a) => a.ignore) && !(ta.name != NameCfg.disable || va.name != NameCfg.disable)) with
+          | false => rfl
+          | true => rw [hb] at hn; exact absurd rfl hn
+    | named =>
+      simp only [hs] at hxy
+      obtain ⟨fas, hfas, hxy⟩ := bind_ok_inv hxy
+      split at hxy
+      · cases hxy
+      · rename_i hn
+        cases hxy
+        refine ⟨rfl, hva, ?_, ?_⟩
+        · intro hu; cases hu
+        · intro _
+          refine ⟨hfas, ?_⟩
+          cases hb : ((fas.all fun (_, a) => a.ignore) && !(ta.name != NameCfg.disable || va.name != NameCfg.disable)) with
+          | false => rfl
+          | true => rw [hb] at hn; exact absurd rfl hn
+  have hmap : vs.map Prod.fst = c.d.variants := forall2_map_eq Prod.fst (fun x y hxy => (key x y hxy).1) _ _ h2
+  have hper : ∀ (k : Nat) (v : Variant) (va : DebugTypeAttr) (fas : List (Field × DebugFieldAttr)), vs[k]? = some (v, va, fas) →
+      c.d.variants[k]? = some v ∧ dbgVariantAttr c v = .ok va ∧
+      (v.shape = .unit → fas = [] ∧ (ta.name != .disable || va.name != .disable) = true) ∧
+      (v.shape ≠ .unit → dbgFieldScan c va.namedField v.fields = .ok fas ∧
+          ((fas.all fun (_, a) => a.ignore) && !(ta.name != .disable || va.name != .disable)) = false) := by
+    intro k v va fas hkv
+    obtain ⟨x, hx, hxy⟩ := forall2_getElem h2 k (v, va, fas) hkv
+    obtain ⟨e1, e2, e3, e4⟩ := key x (v, va, fas) hxy
+    simp only at e1 e2 e3 e4
+    subst e1
+    exact ⟨hx, e2, e3, e4⟩
+  split at h
+  · cases h
+  · rename_i hempty
+    simp only [pure] at h
+    cases h
+    refine ⟨ta, vs, hta, hmap, ?_, ⟨_, List.mem_singleton.mpr rfl, rfl, rfl, rfl⟩, ?_⟩
+    · intro k v va fas hkv
+      obtain ⟨_, e2, e3, e4⟩ := hper k v va fas hkv
+      exact ⟨e2, fun hu => (e3 hu).1, fun hne => (e4 hne).1⟩
+    · intro num
+      -- every arm exists
+      have harm : ∀ w ∈ vs.map (dbgVariant num), ∃ a, Gen.Debug.arm (ta.name.toIdent (identOf c.d.name)) w = .ok a := by
+        intro w hw
+        obtain ⟨p, hp, rfl⟩ := List.mem_map.mp hw
+        obtain ⟨k, hkp⟩ := List.getElem?_of_mem hp
+        obtain ⟨v, va, fas⟩ := p
+        obtain ⟨_, _, e3, e4⟩ := hper k v va fas hkp
+        have hns : (Gen.Debug.nameString (ta.name.toIdent (identOf c.d.name)) (va.name.toIdent (identOf v.name))).isNone
+            = !(ta.name != .disable || va.name != .disable) := by
+          rw [nameString_isNone, nameCfg_isNone, nameCfg_isNone]
+          cases h1 : (ta.name == NameCfg.disable) <;> cases h2 : (va.name == NameCfg.disable) <;> simp [bne, h1, h2]
+        unfold Gen.Debug.arm
+        simp only [dbgVariant]
+        cases hs : v.shape with
+        | unit =>
+          obtain ⟨_, hn⟩ := e3 hs
+          rw [hn] at hns
+          simp only
+          cases hnn : Gen.Debug.nameString (ta.name.toIdent (identOf c.d.name)) (va.name.toIdent (identOf v.name)) with
+          | none => rw [hnn] at hns; simp at hns
+          | some s => exact ⟨_, rfl⟩
+        | tuple =>
+          obtain ⟨_, hn⟩ := e4 (by rw [hs]; simp)
+          have hcond : ((Gen.Debug.armEntries Gen.Debug.bindTup (fun i _ => tupSelf i) 0 (fas.map (dbgField num))).isEmpty &&
+              (Gen.Debug.nameString (ta.name.toIdent (identOf c.d.name)) (va.name.toIdent (identOf v.name))).isNone) = false := by
+            rw [armEntries_isEmpty num _ _ (by intro i c; unfold Gen.Debug.bindTup; cases c.ignore <;> rfl), hns]
+            exact hn
+          simp only [hcond, Bool.false_eq_true, if_false]
+          exact ⟨_, rfl⟩
+        | named =>
+          obtain ⟨_, hn⟩ := e4 (by rw [hs]; simp)
+          have hcond : ((Gen.Debug.armEntries Gen.Debug.bindNamed (fun _ c => c.name) 0 (fas.map (dbgField num))).isEmpty &&
+              (Gen.Debug.nameString (ta.name.toIdent (identOf c.d.name)) (va.name.toIdent (identOf v.name))).isNone) = false := by
+            rw [armEntries_isEmpty num _ _ (by intro i c; unfold Gen.Debug.bindNamed; cases c.ignore <;> rfl), hns]
+            exact hn
+          simp only [hcond, Bool.false_eq_true, if_false]
+          exact ⟨_, rfl⟩
+      obtain ⟨as, has, hlen⟩ := dbg_arms_ok _ _ harm
+      have hbody : ∃ bd, Gen.Debug.body (dbgEnumType num c.d ta vs) = .ok bd := by
+        simp only [dbgEnumType, Gen.Debug.body, has]
+        cases as with
+        | cons a as' => exact ⟨_, rfl⟩
+        | nil =>
+          have hvs0 : vs = [] := by
+            simp only [List.length_nil, List.length_map] at hlen
+            exact List.eq_nil_of_length_eq_zero hlen.symm
+          simp only
+          cases hn : ta.name.toIdent (identOf c.d.name) with
+          | some n => exact ⟨_, rfl⟩
+          | none =>
+            exfalso
+            apply hempty
+            have := nameCfg_isNone ta.name (identOf c.d.name)
+            rw [hn] at this
+            simp only [Option.isNone_none] at this
+            simp [hvs0, ← this]
+      obtain ⟨bd, hbd⟩ := hbody
+      refine ⟨bd, hbd, ?_⟩
+      intro V ops a alt ha
+      have hw : (dbgEnumType num c.d ta vs).WF := by
+        simp only [dbgEnumType, DbgType.WF]
+        intro w hw
+        obtain ⟨p, hp, rfl⟩ := List.mem_map.mp hw
+        obtain ⟨k, hkp⟩ := List.getElem?_of_mem hp
+        obtain ⟨v, va, fas⟩ := p
+        obtain ⟨hv, _, e3, e4⟩ := hper k v va fas hkp
+        have hvw := hwf.1 v (List.mem_of_getElem? hv)
+        have hf : fas.map Prod.fst = v.fields := by
+          by_cases hu : v.shape = .unit
+          · rw [(e3 hu).1, hvw.2 hu]; rfl
+          · exact (fieldScan_spec _ _ _ (e4 hu).1).1
+        exact dbgVariantFields_WF num v fas hvw hf _ rfl rfl
+      exact debug_output ops _ hw bd hbd a ha alt
+
+theorem forall2_mapRes {α β : Type} (f : α → Res β) : ∀ (l : List α) (r : List β), Forall2 (fun x y => f x = .ok y) l r → mapRes f l = .ok r := by
+  intro l r h
+  induction h with
+  | nil => rfl
+  | cons hxy _ ih => simp [mapRes, hxy, ih]
+
+theorem forall2_of_getElem {α β : Type} {R : α → β → Prop} : ∀ (l : List α) (r : List β), r.length = l.length →
+    (∀ (k : Nat) (x : α) (y : β), l[k]? = some x → r[k]? = some y → R x y) → Forall2 R l r := by
+  intro l
+  induction l with
+  | nil => intro r hl _; cases r with | nil => exact .nil | cons _ _ => simp at hl
+  | cons x xs ih =>
+    intro r hl h
+    cases r with
+    | nil => simp at hl
+    | cons y ys =>
+      refine .cons (h 0 x y rfl rfl) (ih ys (by simpa using hl) ?_)
+      intro k x' y' hx hy
+      exact h (k + 1) x' y' (by simpa using hx) (by simpa using hy)
+
+/-- `Bridge.dbgScan` (what the driver runs) returns the configuration of the end-to-end theorems whenever the handler accepts. -/
+theorem dbgScan_of_handler (c : Ctx) (m : TraitMeta) (items : List Item) (hwf : InputWF c.d) (hk : c.d.kind ≠ .union)
+    (h : debugHandler c m = .ok items) (num : String → Nat) :
+    ∃ t, dbgScan c m num = .ok t ∧ ∃ bd, Gen.Debug.body t = .ok bd ∧
+      ∀ {V : Type} (ops : DbgOps V) (a : Val V) (alt : Bool), t.Inhabits a →
+        Sem.evalFmt ops t bd a alt = (Spec.effectiveShape t a).map fun s => s.render ops alt := by
+  cases hkind : c.d.kind with
+  | union => exact absurd hkind hk
+  | struct =>
+    obtain ⟨v, ta, fas, hv, hta, hfas, _, hsem⟩ := debug_struct_end_to_end c m items hwf hkind h
+    refine ⟨dbgStructType num c.d v ta fas, ?_, hsem num⟩
+    simp only [dbgScan, hkind, hv, List.headD_cons]
+    rw [hta, ok_bind_eq, hfas, ok_bind_eq]
+    rfl
+  | enum =>
+    obtain ⟨ta, vs, hta, hmap, hper, _, hsem⟩ := debug_enum_end_to_end c m items hwf hkind h
+    refine ⟨dbgEnumType num c.d ta vs, ?_, hsem num⟩
+    simp only [dbgScan, hkind]
+    rw [hta, ok_bind_eq]
+    have : mapRes (fun v => do
+        let va ← dbgVariantAttr c v
+        let fas ← if v.shape == .unit then pure [] else dbgFieldScan c va.namedField v.fields
+        pure (v, va, fas)) c.d.variants = .ok vs := by
+      apply forall2_mapRes
+      apply forall2_of_getElem
+      · rw [← hmap]; simp
+      · intro k x y hx hy
+        obtain ⟨v, va, fas⟩ := y
+        have hxv : x = v := by
+          have := congrArg (fun l => l[k]?) hmap
+          simp only [List.getElem?_map, hy, Option.map_some] at this
+          rw [hx] at this
+          cases this; rfl
+        subst hxv
+        obtain ⟨e1, e2, e3⟩ := hper k x va fas hy
+        rw [e1, ok_bind_eq]
+        by_cases hu : x.shape = .unit
+        · have hb : (x.shape == Shape.unit) = true := by rw [hu]; rfl
+          simp only [hb, if_true]
+          rw [e2 hu]
+          rfl
+        · have hb : (x.shape == Shape.unit) = false := by cases hs : x.shape <;> simp_all
+          simp only [hb, Bool.false_eq_true, if_false]
+          rw [e3 hu, ok_bind_eq]
+          rfl
+    rw [this, ok_bind_eq]
+    rfl
 
 /-! ## Non-vacuity: a concrete definition, as syn's records, through the whole chain
 
